@@ -36,6 +36,35 @@ func templateLabels(p *core.Program, t *eng.Template, field string) []string {
 			}
 		}
 	}
+	// a clause shared by several labels may distinguish them again by an equality test on the
+	// same field (`case "count", "one": … if node.Name == "one" {…}`): keep the labels the
+	// path's tests are consistent with
+	for _, c := range t.Conds {
+		if c.Case != nil || c.Expr == nil {
+			continue
+		}
+		b, ok := eng.Unparen(c.Expr).(*ast.BinaryExpr)
+		if !ok || (b.Op != token.EQL && b.Op != token.NEQ) {
+			continue
+		}
+		var lit string
+		var isField bool
+		for _, side := range [][2]ast.Expr{{b.X, b.Y}, {b.Y, b.X}} {
+			if v, ok := constStringOf(info, side[1]); ok && strings.HasSuffix(eng.ExprStr(side[0]), "."+field) {
+				lit, isField = v, true
+			}
+		}
+		if !isField {
+			continue
+		}
+		var kept []string
+		for _, o := range ops {
+			if (o == lit) == ((b.Op == token.EQL) == c.Taken) {
+				kept = append(kept, o)
+			}
+		}
+		ops = kept
+	}
 	return ops
 }
 
